@@ -75,6 +75,7 @@ type kworld struct {
 	refused, accepted, restarts int
 	maxCompared                 int
 	pubPass                     string
+	oddRemarks                  int
 }
 
 func (k *kworld) logf(f string, a ...interface{}) { k.trace = append(k.trace, fmt.Sprintf(f, a...)) }
@@ -199,6 +200,7 @@ func secretsOf(kw *kwallet, nAddr int, pubPass string) map[string][]byte {
 		s[name+"(hex)"] = []byte(hex.EncodeToString(raw))
 		s[name+"(HEX)"] = []byte(strings.ToUpper(hex.EncodeToString(raw)))
 		s[name+"(b58)"] = []byte(ref.Base58(raw))
+		s[name+"(dec)"] = []byte(decList(raw))
 	}
 	words := strings.Fields(kw.keys.Mnemonic)
 	s["mnemonic"] = []byte(kw.keys.Mnemonic)
@@ -216,8 +218,29 @@ func secretsOf(kw *kwallet, nAddr int, pubPass string) map[string][]byte {
 		add(fmt.Sprintf("address-key-%d", i), a.Priv[:])
 	}
 	s["private-passphrase"] = []byte(kw.keys.Pass)
+	s["private-passphrase(dec)"] = []byte(decList([]byte(kw.keys.Pass)))
+	s["private-passphrase(hex)"] = []byte(hex.EncodeToString([]byte(kw.keys.Pass)))
 	s["public-passphrase"] = []byte(pubPass)
 	return s
+}
+
+// decList renders bytes the way fmt prints a byte slice inside %v ("112 119 48").
+func decList(b []byte) string {
+	parts := make([]string, len(b))
+	for i, x := range b {
+		parts[i] = fmt.Sprint(x)
+	}
+	return strings.Join(parts, " ")
+}
+
+// genRemark draws the free-text remark of a wallet: mostly plain, sometimes with line breaks, tabs,
+// NUL, invalid UTF-8, non-ASCII or long text. The wallet may refuse a remark (the caller then scans the
+// refusal for secrets and moves on); it may not echo secrets.
+func genRemark(t *rapid.T) (string, bool) {
+	if rapid.IntRange(0, 3).Draw(t, "oddRemark") > 0 {
+		return "m", false
+	}
+	return rapid.SampledFrom([]string{"", "line\nbreak", "tab\there", "nul\x00inside", "\xff\xfe not utf-8", "r\u00e9sum\u00e9 \u94b1\u5305", strings.Repeat("long remark ", 30), "\r\n", "{\"json\":true}", "%s%v%+v"}).Draw(t, "remark"), true
 }
 
 func scanFor(t *rapid.T, where string, hay []byte, secrets map[string][]byte) {
@@ -396,9 +419,20 @@ func propC0405(t *rapid.T) {
 			if rapid.IntRange(0, 2).Draw(t, "withInternalHint") == 0 {
 				ihint = uint32(rapid.IntRange(1, 3).Draw(t, "internalHint"))
 			}
-			ws, err := in.env.W.ImportWalletWithMnemonic(&keystore.WalletParams{Mnemonic: kw.keys.Mnemonic, PrivatePassphrase: []byte(kw.keys.Pass), Remarks: "m", ExternalIndex: hint, InternalIndex: ihint, AddressGapLimit: 20})
+			remark, odd := genRemark(t)
+			ws, err := in.env.W.ImportWalletWithMnemonic(&keystore.WalletParams{Mnemonic: kw.keys.Mnemonic, PrivatePassphrase: []byte(kw.keys.Pass), Remarks: remark, ExternalIndex: hint, InternalIndex: ihint, AddressGapLimit: 20})
+			if err != nil && odd {
+				// an unusual remark may be refused; the refusal must not carry secrets
+				k.errs = append(k.errs, err.Error())
+				k.logf("import mnemonic wallet %s with remark %q refused: %s", kw.id[:10], remark, trimTo(err.Error(), 60))
+				k.oddRemarks++
+				return
+			}
 			if err != nil {
 				t.Fatalf("ImportWalletWithMnemonic: %v", err)
+			}
+			if odd {
+				k.oddRemarks++
 			}
 			if ws.WalletID != kw.keys.ID {
 				t.Fatalf("mnemonic import gives wallet id %s, derivation gives %s (mnemonic %q)", ws.WalletID, kw.keys.ID, kw.keys.Mnemonic)
@@ -415,9 +449,23 @@ func propC0405(t *rapid.T) {
 			ii := rapid.IntRange(0, len(k.inst)-1).Draw(t, "instance")
 			bits := []int{128, 160, 192, 224, 256}[rapid.IntRange(0, 4).Draw(t, "bits")]
 			pass := fmt.Sprintf("pw%dX%s", len(k.wallets), rapid.StringMatching(`[a-zA-Z0-9@#$%^&]{4,20}`).Draw(t, "pass"))
-			id, mnemonic, _, err := k.inst[ii].env.W.CreateWallet(pass, "c", bits)
+			remark, odd := genRemark(t)
+			if !odd {
+				remark = "c"
+			}
+			id, mnemonic, _, err := k.inst[ii].env.W.CreateWallet(pass, remark, bits)
+			if err != nil && odd {
+				scanFor(t, "error text returned by CreateWallet ("+err.Error()+")", []byte(err.Error()), map[string][]byte{
+					"private-passphrase": []byte(pass), "private-passphrase(dec)": []byte(decList([]byte(pass))), "private-passphrase(hex)": []byte(hex.EncodeToString([]byte(pass)))})
+				k.logf("create wallet with remark %q refused: %s", remark, trimTo(err.Error(), 60))
+				k.oddRemarks++
+				return
+			}
 			if err != nil {
 				t.Fatalf("CreateWallet: %v", err)
+			}
+			if odd {
+				k.oddRemarks++
 			}
 			entropy, rerr := ref.Bip39Decode(strings.Fields(mnemonic))
 			if rerr != nil || len(entropy)*8 != bits {
@@ -692,7 +740,7 @@ func propC0405(t *rapid.T) {
 	}
 	key := hkey(strings.Join(k.trace, "\n"))
 	c04.Case(key, shared >= 1 && k.maxCompared >= 3, fmt.Sprintf("instances:%d", len(k.inst)), fmt.Sprintf("wallets:%d", len(k.wallets)))
-	c05.Case(key, k.refused >= 1 && k.accepted >= 1 && k.restarts >= 1, fmt.Sprintf("refused>=1:%v", k.refused >= 1), fmt.Sprintf("restarts>=1:%v", k.restarts >= 1))
+	c05.Case(key, k.refused >= 1 && k.accepted >= 1 && k.restarts >= 1, fmt.Sprintf("refused>=1:%v", k.refused >= 1), fmt.Sprintf("restarts>=1:%v", k.restarts >= 1), fmt.Sprintf("unusual-remark:%v", k.oddRemarks >= 1))
 	c05.Label("byte-strings-scanned", scanned)
 	c05.Label("secret-patterns", len(all))
 	if shared >= 1 && k.maxCompared >= 3 {
